@@ -49,8 +49,13 @@ Deliveries(H, id, h) == {i \in Enter(H) : H.hist[i].kind = "ev" /\ H.hist[i].id 
 C15_EventuallyDispatchedOnce(H) ==
   /\ \A id \in Kept : LET a == CHOOSE a \in {R.arrivals[k] : k \in DOMAIN R.arrivals} : a.id = id IN
         \A h \in 1..Len(R.hs[a.src]) : Cardinality(Deliveries(H, id, h)) = 1
+  \* a job that is due well before the dispatcher is stopped runs exactly once; one scheduled for (long) after the stop
+  \* never runs; never twice in any case
   /\ \A j \in {R.jobs[k] : k \in DOMAIN R.jobs} :
-        Cardinality({i \in Enter(H) : H.hist[i].kind = "job" /\ H.hist[i].id = j.id}) = 1
+        LET n == Cardinality({i \in Enter(H) : H.hist[i].kind = "job" /\ H.hist[i].id = j.id}) IN
+        /\ n <= 1
+        /\ (j.when + 300 <= R.stop_at => n = 1)
+        /\ (j.when > R.stop_at => n = 0)
 C15_IdleOnlyWhenIdle(H) ==
   \A i \in Enter(H) : H.hist[i].kind = "idle" =>
      \A t \in InFlight(H, i - 1) : t[1] = "idle"
